@@ -860,6 +860,9 @@ def _deepcopy_state(v, memo=None):
         return v
     if getattr(v, "ucls", None) is not None:
         n.ucls, n.ufields = v.ucls, {k: _deepcopy_state(x) for k, x in v.ufields.items()}
+    for k_ in ("weak", "factory", "opaque", "frozen"):      # what kind of container it is (weak references, defaultdict factory ...)
+        if k_ in getattr(v, "__dict__", {}):
+            setattr(n, k_, v.__dict__[k_])
     return n
 
 
